@@ -30,6 +30,8 @@ PID = "C20"
 THEOREM_MODULES = ["GuppyVerif.Props.C20"]
 DRIVER = "C20"
 RULE = (
+    "Scope: every top-level function of every module found under std/quantum/ and std/qsystem/ (functional.py wrappers "
+    "included; random/utils/wasm enumerated as unmodelled utilities) + the methods of `qubit`: 76 rows.  "
     "T-obj: one lowered probe per (table row, assignment of distinct caller qubits/angles to the row's parameters): "
     "quick = identity + reversed + one random permutation, thorough = every permutation of qubit and of angle "
     "arguments; non-trivial = the probe emits at least one quantum op and was compared on op name, extension, "
@@ -40,7 +42,10 @@ RULE = (
     "cx/cy/cz/ch/crz/zz_phase/zz_max with the qubits in every order on 3 qubits, toffoli in every order on 3 and 4 qubits, "
     "12 / 600 random circuits of 6-14 gates on 2-4 qubits) lowered by the real compiler, run on the reference interpreter from "
     "a random and the |0..0> state for 2 / 4 parameter sets and compared up to global phase with the documented matrices; "
-    "11 measurement-like functions on basis and random states with forced outcomes; distinct by (source hash, parameters, initial state)"
+    "every systematic circuit also in functional style (`q0, q1 = quantum_functional.cy(q0, q1)` on owned qubits returned as a "
+    "tuple; state read in the order of the returned qubits), every other random circuit mixes both styles; "
+    "17 measurement-like functions (6 functional wrappers) on basis and random states with forced outcomes; distinct by "
+    "(source hash, parameters, initial state)"
 )
 ASSUMPTIONS = [
     "float64 arithmetic is read as exact arithmetic in a field (rationals in the tie, any field in the theorems); "
@@ -67,6 +72,8 @@ UNMODELLED = [
     "lowering on the reference interpreter against the documented matrices / projective Z-basis semantics (sampling; the "
     "interpreter's own matrices are an assumption, cross-checked against the documented table on every run)",
     "measure_array, discard_array, measure_leaked and MaybeLeaked methods (loop / struct bodies: listed as opaque rows)",
+    "std/qsystem/random.py, utils.py, wasm.py (non-quantum utilities: top-level functions enumerated for coverage only; "
+    "methods of RNG / DiscreteDistribution not enumerated)",
     "floating-point rounding in angle arithmetic",
 ]
 TRUSTED_EXTRA = [
@@ -80,7 +87,8 @@ TRUSTED_EXTRA = [
 MANIFEST = {
     "level_text": "Lean theorems over the gate table regenerated from /repo on every run: every documented gate function "
     "(18 tket.quantum gates, 6 qsystem gate bindings, 14 alloc/measure/reset bindings; ch and zz_max as body "
-    "decompositions) emits exactly the op of its documented name with the caller's qubits on the op's ports in "
+    "decompositions; the 21 + 8 functional wrappers of std/quantum/functional.py and std/qsystem/functional.py apply what "
+    "their in-place namesake applies to the same arguments and return their qubits in declaration order) emits exactly the op of its documented name with the caller's qubits on the op's ports in "
     "declaration order for ALL actual arguments (unbounded), rotations pass halfturns unscaled through "
     "from_halfturns_unchecked, qsystem gates pass halfturns*pi; table and spec cover each other; angle arithmetic "
     "(+,-,neg,*,/,float,==, constant pi) is a homomorphism into radians over any field; CH = Ry(pi/4) CZ Ry(-pi/4) as "
